@@ -2,6 +2,7 @@
 squeeze chains.  Implementation (valjean.eponine.dataset) vs Coq model
 C08/Model.v, plus the property oracle (plain numpy operations and python float
 arithmetic as ground truth, np.shares_memory and deep snapshots for aliasing).'''
+import copy
 import json
 import math
 import operator
@@ -24,29 +25,78 @@ PYOP = {'add': operator.add, 'sub': operator.sub, 'mul': operator.mul, 'div': op
 COQOP = {'add': 'Add', 'sub': 'Sub', 'mul': 'Mul', 'div': 'Div'}
 SYM = {'add': '+', 'sub': '-', 'mul': '*', 'div': '/'}
 ARITH = tuple(PYOP)
+# augmented assignments x op= y (python rebinds x unless the class has in-place operators)
+AUGOP = {'iadd': operator.iadd, 'isub': operator.isub, 'imul': operator.imul,
+         'idiv': operator.itruediv}
+BASE = {'iadd': 'add', 'isub': 'sub', 'imul': 'mul', 'idiv': 'div'}
+BASE.update({k: k for k in PYOP})
+BINARY = ARITH + tuple(AUGOP)
+INTMIN = {'int8': -2 ** 7, 'int16': -2 ** 15, 'int32': -2 ** 31, 'int64': -2 ** 63}
 
 
 # --------------------------------------------------------------------------
 # building real objects from a case
 
-def farr(bits, shape=None):
+def relayout(arr, layout):
+    """the same array (shape, cells) in another memory layout"""
+    if layout in (None, 'C') or arr.ndim == 0:
+        return arr
+    if layout == 'F':                                   # Fortran order
+        return np.asfortranarray(arr)
+    if layout == 'T':                                   # transposed view of a C array
+        return np.ascontiguousarray(arr.T).T
+    if layout == 'S':                                   # every second cell of a wider buffer
+        big = np.full(arr.shape[:-1] + (2 * arr.shape[-1],), 777.0, dtype=arr.dtype)
+        view = big[..., ::2]
+        view[...] = arr
+        return view
+    if layout == 'N':                                   # negative stride along the last axis
+        return np.ascontiguousarray(arr[..., ::-1])[..., ::-1]
+    raise ValueError(layout)
+
+
+def farr(bits, shape=None, layout=None):
     arr = np.array([bits_f64(b) for b in bits], dtype=float)
-    return arr if shape is None else arr.reshape(shape)
+    return relayout(arr if shape is None else arr.reshape(shape), layout)
+
+
+def make_arr(spec):
+    if spec.get('dtype'):
+        arr = np.array(spec['idata'], dtype=spec['dtype']).reshape(tuple(spec['shape']))
+        return relayout(arr, spec.get('layout'))
+    return farr(spec['data'], tuple(spec['shape']), spec.get('layout'))
 
 
 def make_ds(Dataset, spec):
     shape = tuple(spec['shape'])
+    lay = spec.get('layout') or [None, None, None]
     if spec.get('scalar'):
         value = np.float64(bits_f64(spec['value'][0]))
         error = np.float64(bits_f64(spec['error'][0]))
     else:
-        value = farr(spec['value'], shape)
-        error = farr(spec['error'], shape)
-    bins = OrderedDict((nm, farr(b)) for nm, b in spec['bins'])
+        value = farr(spec['value'], shape, lay[0])
+        error = farr(spec['error'], shape, lay[1])
+    bins = OrderedDict((nm, farr(b, None, lay[2])) for nm, b in spec['bins'])
     dset = Dataset(value, error, bins=bins, name=spec['name'], what=spec['what'])
     if spec.get('mask') is not None:
         dset = dset.mask(np.array(spec['mask'], dtype=bool).reshape(shape))
     return dset
+
+
+def freeze(obj):
+    """detached deep clone of an operand, made without any valjean code: what
+    the operand was before the operation (in-place operators may change it)"""
+    from valjean.eponine.dataset import Dataset
+    if isinstance(obj, Dataset):
+        clone = Dataset.__new__(Dataset)
+        clone.value = copy.deepcopy(obj.value)
+        clone.error = copy.deepcopy(obj.error)
+        clone.bins = OrderedDict((k, np.array(v, copy=True)) for k, v in obj.bins.items())
+        clone.name, clone.what = obj.name, obj.what
+        return clone
+    if isinstance(obj, np.ndarray):
+        return np.array(obj, copy=True)
+    return obj
 
 
 def arrays_of(obj):
@@ -149,7 +199,7 @@ def coq_op(mop):
         lit = '(RArr ' + clist([cn(n) for n in rhs['shape']]) + ' ' + coq_fl(rhs['data']) + ')'
     else:
         lit = '(RDs ' + coq_ds(rhs['ds']) + ')'
-    return f'(OBin {COQOP[kind]} {lit})'
+    return f'({"OAug" if kind in AUGOP else "OBin"} {COQOP[BASE[kind]]} {lit})'
 
 
 def coq_res(res):
@@ -485,6 +535,10 @@ def gen_shape(rng):
             return shape
 
 
+def gen_layout(rng):
+    return rng.choice(['C', 'C', 'C', 'F', 'T', 'S', 'N'])
+
+
 def gen_rhs(rng, cur, special, nhist):
     '''right operand for the current (shape, bins); returns (rhs spec, expect_raise)'''
     shape, bins = cur['shape'], cur['bins']
@@ -521,8 +575,17 @@ def gen_rhs(rng, cur, special, nhist):
                     ashape = []                     # 0-d dataset with a 0-d array
             while int(np.prod(ashape)) > 48:
                 ashape[ashape.index(max(ashape))] -= 1
-        data = [canon_bits(gen_float(rng, special)) for _ in range(int(np.prod(ashape)))]
-        return {'k': 'arr', 'shape': ashape, 'data': data}, None      # None: decided by array_outcome
+        size = int(np.prod(ashape))
+        spec = {'k': 'arr', 'shape': ashape, 'layout': gen_layout(rng)}
+        if rng.random() < 0.2:                      # integer array, the minimum of its dtype included
+            dtype = rng.choice(sorted(INTMIN))
+            spec['dtype'] = dtype
+            spec['idata'] = [INTMIN[dtype] if rng.random() < 0.3 else rng.randint(-9, 9)
+                             for _ in range(size)]
+            spec['data'] = [canon_bits(float(x)) for x in spec['idata']]
+        else:
+            spec['data'] = [canon_bits(gen_float(rng, special)) for _ in range(size)]
+        return spec, None                           # None: decided by array_outcome
     if r < 0.52:
         return {'k': 'self'}, False
     if r < 0.60 and nhist > 1:
@@ -565,7 +628,8 @@ def gen_rhs(rng, cur, special, nhist):
     spec = {'shape': dshape, 'value': value, 'error': error, 'bins': dbins,
             'name': rng.choice(['', 'ds2', 'other']),
             'what': cur['what'] if rng.random() < 0.5 else rng.choice(['', 'spam', 'egg', 'flux']),
-            'scalar': not dshape and rng.random() < 0.7}
+            'scalar': not dshape and rng.random() < 0.7,
+            'layout': [gen_layout(rng), gen_layout(rng), rng.choice(['C', 'C', 'S', 'N'])]}
     if dshape and dsize and rng.random() < 0.08:
         spec['mask'] = [rng.random() < 0.3 for _ in range(dsize)]
     return {'k': 'ds', 'ds': spec}, bad
@@ -579,37 +643,49 @@ def gen_case(rng, special=0.0, maxlen=6):
     left = {'shape': shape, 'value': value, 'error': error,
             'bins': [] if (not shape or rng.random() < 0.15) else gen_bins(rng, shape),
             'name': rng.choice(['', 'ds1', 'tally']), 'what': what,
-            'scalar': not shape and rng.random() < 0.7}
-    cur = {'shape': list(shape), 'bins': left['bins'], 'what': what, 'masked': False}
+            'scalar': not shape and rng.random() < 0.7,
+            'layout': [gen_layout(rng), gen_layout(rng), rng.choice(['C', 'C', 'S', 'N'])]}
+    # one state per dataset of the history: every operation acts on the latest one or
+    # (12 %) on an earlier one, all of them stay alive
+    states = [{'shape': list(shape), 'bins': left['bins'], 'what': what, 'masked': False}]
     ops = []
     for _ in range(rng.randint(1, maxlen)):
+        on = None
+        if len(states) > 1 and rng.random() < 0.12:
+            on = rng.randrange(len(states) - 1)
+        cur = copy.deepcopy(states[-1 if on is None else on])
+        extra = {} if on is None else {'on': on}
         r = rng.random()
         if r < 0.70:
-            kind = rng.choice(ARITH)
-            rhs, bad = gen_rhs(rng, cur, special, len(ops) + 1)
+            kind = rng.choice(ARITH) if rng.random() < 0.7 else rng.choice(sorted(AUGOP))
+            rhs, bad = gen_rhs(rng, cur, special, len(states))
             if rhs['k'] == 'arr':
-                bad, newshape = array_outcome(kind, cur['shape'], [b for _, b in cur['bins']],
+                bad, newshape = array_outcome(BASE[kind], cur['shape'], [b for _, b in cur['bins']],
                                               rhs['shape'])
                 if not bad:
                     cur['shape'] = newshape
-            ops.append({'op': kind, 'rhs': rhs, 'raises': bad})
+            ops.append(dict({'op': kind, 'rhs': rhs, 'raises': bad}, **extra))
             if rhs['k'] == 'ds' and rhs['ds'].get('mask') is not None:
                 cur['masked'] = True
-            if bad:
-                break
+            if rhs['k'] == 'prev' and states[min(rhs['j'], len(states) - 1)]['masked']:
+                cur['masked'] = True
+            if bad or bad is None and rhs['k'] == 'prev' and on is not None:
+                break               # (an earlier dataset with an earlier one: shapes may differ)
         elif r < 0.82:
-            ops.append({'op': 'copy'})
+            ops.append(dict({'op': 'copy'}, **extra))
         elif r < 0.90 and cur['shape'] and int(np.prod(cur['shape'])):
-            ops.append({'op': 'mask',
-                        'm': [rng.random() < 0.3 for _ in range(int(np.prod(cur['shape'])))]})
+            ops.append(dict({'op': 'mask',
+                             'm': [rng.random() < 0.3 for _ in range(int(np.prod(cur['shape'])))]},
+                            **extra))
             cur['masked'] = True
         else:
             if cur['masked'] and all(n == 1 for n in cur['shape']):
                 continue            # 0-d masked arrays: numpy.ma.masked singleton, not a dataset matter
-            ops.append({'op': 'squeeze'})
+            ops.append(dict({'op': 'squeeze'}, **extra))
             if cur['bins']:
                 cur['bins'] = [b for b, n in zip(cur['bins'], cur['shape']) if n != 1]
             cur['shape'] = [n for n in cur['shape'] if n != 1]
+        states.append(cur)
     if not ops:
         ops.append({'op': 'copy'})
     return {'left': left, 'ops': ops}
@@ -692,7 +768,7 @@ def build_rhs(Dataset, spec, left, hist):
     if spec['k'] == 'float':
         return float(bits_f64(spec['v']))
     if spec['k'] == 'arr':
-        return farr(spec['data'], tuple(spec['shape']))
+        return make_arr(spec)
     if spec['k'] == 'self':
         return left
     if spec['k'] == 'prev':
@@ -709,30 +785,102 @@ def model_rhs(Dataset, rhs, left):
     return {'k': 'num', 'v': canon_bits(float(rhs))}
 
 
+def changed(before, operands, skip):
+    """indices of the operands whose deep snapshot differs from `before`"""
+    return [k for k, (x, old) in enumerate(zip(operands, before))
+            if not any(x is y for y in skip) and snap(x) != old]
+
+
+def oracle_no_leak(ctx, hist, case):
+    """Operands are never modified by valjean's own operations, in-place
+    operators included if the class has them: x op= y may rebind x or change x,
+    it must not change any OTHER dataset of the history (results share arrays
+    with their operands: error after +/- a number, bins).  Every dataset of the
+    history gets every augmented operator on a scratch basis at the end of the
+    chain; numpy's own in-place arithmetic on the arrays is user code, not a
+    valjean operation: where it would leak is only counted."""
+    uniq = []
+    for x in hist:
+        if not any(x is y for y in uniq):
+            uniq.append(x)
+    for target in uniq:
+        if isinstance(target.value, np.ma.MaskedArray) and np.ndim(target.value) == 0:
+            continue
+        others = [y for y in uniq if y is not target]
+        if not others:
+            continue
+        todo = [(kind, 2.0) for kind in AUGOP]
+        if isinstance(target.value, np.ndarray) and target.value.ndim:
+            todo.append(('imul', np.full(np.shape(target.value), 2.0)))
+            todo.append(('idiv', freeze(target)))
+        before = [snap(y) for y in others]
+        for kind, rhs in todo + [(None, None)]:
+            inplace = False
+            if kind is not None:
+                with np.errstate(all='ignore'):
+                    try:
+                        inplace = AUGOP[kind](target, rhs) is target
+                    except Exception:  # noqa
+                        continue
+            # a rebinding x op= y is the plain operator (checked at every step of
+            # every chain); an in-place one is checked at once, all of them at the end
+            if not inplace and kind is not None:
+                continue
+            bad = changed(before, others, ())
+            if bad:
+                ctx.oracle_failure(
+                    f'{kind or "an augmented assignment"} on dataset #{hist.index(target)} of the '
+                    f'chain changes dataset #{hist.index(others[bad[0]])} (a result shares arrays '
+                    f'with its operands) :: {case}', case, key='modified-through-alias')
+                return
+    # informational: would numpy in-place arithmetic on the last dataset's arrays reach others?
+    last = uniq[-1]
+    others = uniq[:-1]
+    for label, arr in [('value', last.value), ('error', last.error)] + \
+            [('bins', b) for b in last.bins.values()]:
+        data = np.ma.getdata(arr)
+        if not isinstance(data, np.ndarray) or not data.size or not data.flags.writeable \
+                or data.dtype != float:
+            continue
+        before = [snap(y) for y in others]
+        saved = data.copy()
+        data *= 2.0
+        if changed(before, others, ()):
+            ctx.count('numpy_write_into_result_' + label + '_reaches_an_operand')
+        data[...] = saved
+
+
 def run_impl(ctx, case, steps):
     '''run one chain on the implementation, evaluate the oracle on every step,
     append the observed steps.  Returns True when the chain is non-trivial.'''
     from valjean.eponine.dataset import Dataset
-    left = make_ds(Dataset, case['left'])
-    hist = [left]
+    hist = [make_ds(Dataset, case['left'])]
     nontrivial = False
     for opi, mop in enumerate(case['ops']):
         kind = mop['op']
+        base = BASE.get(kind, kind)
+        left = hist[min(mop.get('on', len(hist) - 1), len(hist) - 1)]
         rhs, mask = None, None
         if isinstance(left.value, np.ma.MaskedArray) and np.ndim(left.value) == 0:
             ctx.count('stopped_at_0d_masked')   # numpy.ma.masked singleton: not a dataset matter
             break
-        if kind in ARITH:
+        if kind in BINARY:
             rhs = build_rhs(Dataset, mop['rhs'], left, hist)
         elif kind == 'mask':
             mask = np.array(mop['m'], dtype=bool).reshape(np.shape(left.value))
+        # every dataset created so far stays alive and is snapshotted around the step
         operands = hist + ([rhs] if rhs is not None else []) + ([mask] if mask is not None else [])
         before = [snap(x) for x in operands]
-        mrhs = model_rhs(Dataset, rhs, left) if kind in ARITH else None
+        left0 = freeze(left)                    # the operands as they are before the step
+        rhs0 = left0 if rhs is left else freeze(rhs)
+        theirs = [a for x in operands if x is not left or kind not in AUGOP for a in arrays_of(x)]
+        mrhs = model_rhs(Dataset, rhs0, left0) if kind in BINARY else None
         with np.errstate(all='ignore'):
             try:
                 if kind in ARITH:
                     out = PYOP[kind](left, rhs)
+                elif kind in AUGOP:
+                    out = AUGOP[kind](left, rhs)
                 elif kind == 'copy':
                     out = left.copy()
                 elif kind == 'mask':
@@ -741,34 +889,41 @@ def run_impl(ctx, case, steps):
                     out = left.squeeze()
             except Exception as exc:  # noqa
                 out = exc
-        if [snap(x) for x in operands] != before:
-            ctx.oracle_failure(f'{kind} (step {opi}) modifies an operand :: {case}', case,
-                               key='operand-modified')
+        # x op= y may change x itself (in-place operators); nothing else may change
+        bad = changed(before, operands, (out,) if kind in AUGOP else ())
+        if bad:
+            who = [f'dataset #{k} of the chain' if k < len(hist) else 'the right operand' for k in bad]
+            ctx.oracle_failure(f'{kind} (step {opi}, on dataset #{hist.index(left)}) modifies '
+                               f'{", ".join(who)} :: {case}', case, key='operand-modified')
         ctx.count(kind + ('' if rhs is None else '_' + ('ds' if isinstance(rhs, Dataset)
                                                         else type(rhs).__name__)))
+        if mop.get('on') is not None:
+            ctx.count('applied_to_an_earlier_dataset')
         if not oracle_well_formed(ctx, kind, out, case, opi):
             break               # an ill-formed object is not a dataset: nothing more to say about it
-        if kind in ARITH:
+        if kind in BINARY:
             expect = mop.get('raises')
-            if isinstance(rhs, np.ndarray):     # numpy broadcasting + a well-formed result
-                expect = array_outcome(kind, np.shape(left.value), list(left.bins.values()),
-                                       rhs.shape)[0]
+            if isinstance(rhs0, np.ndarray):     # numpy broadcasting + a well-formed result
+                expect = array_outcome(base, np.shape(left0.value), list(left0.bins.values()),
+                                       rhs0.shape)[0]
+                if rhs0.dtype != float:
+                    ctx.count('integer_array_' + str(rhs0.dtype))
             elif expect is None:      # decided by the documented compatibility rule
-                expect = np.shape(rhs.value) != np.shape(left.value) or (
-                    bool(rhs.bins) and not all(
-                        s == o and np.array_equal(left.bins[s], rhs.bins[o])
-                        for s, o in zip(left.bins, rhs.bins)))
-            oracle_binop(ctx, kind, left, rhs, out, case, expect)
+                expect = np.shape(rhs0.value) != np.shape(left0.value) or (
+                    bool(rhs0.bins) and not all(
+                        s == o and np.array_equal(left0.bins[s], rhs0.bins[o])
+                        for s, o in zip(left0.bins, rhs0.bins)))
+            oracle_binop(ctx, base, left0, rhs0, out, case, expect)
             if isinstance(rhs, (int, float)) and rhs < 0:
                 ctx.count('negative_number')
         elif kind == 'copy':
             oracle_copy(ctx, left, out, case)
         elif kind == 'mask':
-            oracle_mask(ctx, left, mask, out, case)
+            oracle_mask(ctx, left0, mask, out, case)
         else:
-            oracle_squeeze(ctx, left, out, case)
-        step = {'ds': ds_json(left),
-                'mop': {'op': kind, 'rhs': mrhs} if kind in ARITH else
+            oracle_squeeze(ctx, left0, out, case)
+        step = {'ds': ds_json(left0),
+                'mop': {'op': kind, 'rhs': mrhs} if kind in BINARY else
                        ({'op': 'mask', 'm': [bool(x) for x in mask.reshape(-1)]} if kind == 'mask'
                         else {'op': kind})}
         if isinstance(out, Exception):
@@ -777,21 +932,23 @@ def run_impl(ctx, case, steps):
             ctx.count('raise_' + type(out).__name__)
             steps.append((case, opi, step))
             break
-        theirs = [a for x in operands for a in arrays_of(x)]
         step['res'] = {'ok': ds_json(out)}
         # mask buffers count for copy() only: numpy.ma may hand an operand's mask on
         wmask = kind == 'copy'
         step['shares'] = [shares(out.value, theirs, wmask), shares(out.error, theirs, wmask),
                           any(shares(b, theirs) for b in out.bins.values())]
+        for label, flag in zip(('value', 'error', 'bins'), step['shares']):
+            if flag:
+                ctx.count('result_shares_' + label + '_with_an_operand')
         if step['res']['ok']['shape'] != step['res']['ok']['eshape']:
             break               # reported by the oracle; nothing to compare cell by cell
         steps.append((case, opi, step))
-        if kind in ARITH and np.size(out.value):
+        if kind in BINARY and np.size(out.value):
             nontrivial = True
         if isinstance(out.value, np.ma.MaskedArray):
             ctx.count('masked_result')
-        left = out
         hist.append(out)
+    oracle_no_leak(ctx, hist, case)
     return nontrivial
 
 
